@@ -4,3 +4,9 @@ import torch
 def helper(x, eps=1e-6):
     x[..., -1] += eps
     return x.sum()
+
+
+def split_dim(x, shape):
+    new_shape = shape if isinstance(shape, list) else list(shape)
+    new_shape += x.shape[1:]
+    return x.reshape(new_shape)
